@@ -1,9 +1,92 @@
-import Okane.Drv.IOUtil
-/-! Driver commands for C10 (stub: replaced when the property's streams are built). -/
+import Okane.Drv.C09
+/-!
+Driver for C10.  Input: the output lines of `hx c10`
+  `<id> tree=(...) pdb=(...) result=(ok (txns ...) (bal ...)) qs=((T U|H (d ..) (start?) (end?) <res>) ...) rates=(...)`
+For every query the model's `Query.balance` is computed (under several pop / neighbour orders) and compared with
+what `Ledger::balance` returned.  Output: `<id> agree q=<n> ties=<k> inexact=<k>` | `<id> DISAGREE ...`.
+-/
 namespace Okane.Drv.C10
+open Okane Okane.Drv Okane.Drv.C09 Okane.Price Okane.Query Sexp
 
-def main (args : List String) : IO Unit := do
-  let _ := args
-  pure ()
+inductive BRes where
+  | ok (b : Balance String String)
+  | err (kind : String)
+  | crash (what : String)
+
+def BRes.toStr : BRes → String
+  | .ok b => "(ok " ++ (Sexp.list (sortBalance b |>.map fun kv =>
+      .list [mkStr kv.1, .list (kv.2.map fun cv => .list [mkStr cv.1, encRat cv.2])])).toStr ++ ")"
+  | .err k => "(err " ++ k ++ ")"
+  | .crash w => "(crash " ++ w ++ ")"
+
+def decBRes : Sexp → Option BRes
+  | .list [.atom "ok", b] => (decBalance b).map .ok
+  | .list [.atom "err", .atom k] => some (.err k)
+  | _ => none
+
+def balanceClose (a b : Balance String String) : Bool :=
+  let x := sortBalance a; let y := sortBalance b
+  x.length == y.length && (x.zip y).all fun (p, q) =>
+    p.1 == q.1 && p.2.length == q.2.length && (p.2.zip q.2).all fun (u, v) => u.1 == v.1 && ratClose u.2 v.2
+
+def bresCmp : BRes → BRes → Nat
+  | .ok a, .ok b => if balanceEq a b then 2 else if balanceClose a b then 1 else 0
+  | .err a, .err b => if a == b then 2 else 0
+  | _, _ => 0
+
+def modelBalance (w : World) (cfg : Cfg String) (target : String) (historical : Bool) (now : Date)
+    (start stop : Option Date) : BRes :=
+  match toConversion w.store (some target) historical now with
+  | .ok conv =>
+    match Query.balance w.st.ctx.prec (envOf cfg w.repo) w.st.txns w.st.bal ⟨conv, ⟨start, stop⟩⟩ with
+    | .ok b => .ok b
+    | .err (.commodityNotFound _) => .err "CommodityNotFound"
+    | .err (.evalFailed _) => .err "EvalFailed"
+    | .err (.conversionFailure _) => .err "CommodityConversionFailure"
+    | .panic s => .crash s
+    | .fuelOut => .crash "fuelOut"
+  | .err _ => .err "CommodityNotFound"
+  | _ => .crash "toConversion"
+
+def checkQuery (w : World) (t : Tally) : Sexp → Tally
+  | .list [tg, mode, now, s, e, r] =>
+    match tg.str?, decDate now, decOpt decDate s, decOpt decDate e, decBRes r with
+    | some target, some now, some start, some stop, some impl =>
+      let hist := match mode with | .atom "H" => true | _ => false
+      let ms := cfgs.map fun cfg => modelBalance w cfg target hist now start stop
+      let best := (ms.map (bresCmp impl)).foldl max 0
+      let first := ms.headD (.crash "none")
+      let tie := ms.any fun m => bresCmp first m != 2
+      if best == 0 then
+        let showD := fun (d : Option Date) => (d.map Date.fmtHyphen).getD "-"
+        let msg := "at=(" ++ target ++ " " ++ (if hist then "H" else "U") ++ " now=" ++ now.fmtHyphen ++ " start=" ++ showD start ++
+          " end=" ++ showD stop ++ ") impl=" ++ impl.toStr ++ " model=" ++ first.toStr
+        { t with n := t.n + 1, bad := t.bad.orElse fun _ => some msg }
+      else
+        { t with n := t.n + 1, ties := t.ties + (if tie then 1 else 0), inexact := t.inexact + (if best == 1 then 1 else 0) }
+    | _, _, _, _, _ => { t with bad := some "undecodable query record" }
+  | _ => { t with bad := some "undecodable query record" }
+
+def step (line : String) : String :=
+  let (id, fs) := splitFields line
+  match field fs "tree", field fs "pdb", field fs "result", field fs "qs" with
+  | some t, some pdb, some result, some q =>
+    match decEntries t, (Sexp.parse pdb).bind decDb, (Sexp.parse result).bind decResult, Sexp.parse q with
+    | some es, some db, some (.ok txns bal), some (.list qs) =>
+      match mkWorld es db with
+      | .error e => s!"{id} DISAGREE implementation processed the ledger, {e}"
+      | .ok w =>
+        if !(listAll2 txnEq w.st.txns txns && balanceEq w.st.bal bal) then
+          s!"{id} DISAGREE book-keeping result differs (see `hx process` / C01-C04)"
+        else
+          let tally := qs.foldl (checkQuery w) {}
+          match tally.bad with
+          | some b => s!"{id} DISAGREE {b}"
+          | none => s!"{id} agree q={tally.n} ties={tally.ties} inexact={tally.inexact}"
+    | some _, some _, some _, some _ => s!"{id} skip impl={result.take 80}"
+    | _, _, _, _ => s!"{id} undecodable"
+  | _, _, _, _ => s!"{id} bad-case"
+
+def main (_args : List String) : IO Unit := forEachLine step
 
 end Okane.Drv.C10
